@@ -12,6 +12,9 @@ ROOT = "/verif"
 FIRST = {
     "C01/1": "missed", "C01/2": "missed", "C05/2": "missed", "C06/1": "missed", "C06/2": "missed",
     "C07/2": "missed", "C10/2": "missed", "C11/1": "missed", "C12/2": "missed", "C03/4": "missed", "C12/3": "missed", "C01/3": "missed", "C05/3": "missed",
+    # round 4 (13 of 20 missed by the checks as they were when the change was made)
+    "C01/4": "missed", "C03/5": "missed", "C05/4": "missed", "C06/4": "missed", "C07/4": "missed", "C09/4": "missed", "C10/4": "missed",
+    "C11/4": "missed", "C12/4": "missed", "C16/4": "missed", "C17/4": "missed", "C18/4": "missed", "C19/4": "missed", "C20/4": "missed",
 }
 
 
